@@ -42,6 +42,12 @@ def note_name(n, rng):
 
 # ---------------------------------------------------------------- description generator
 
+def bnd(rng, n):
+    """a value in [0, n): the two ends are drawn as often as everything in between (0 and n-1 are where presence flags
+    derived from values, off-by-one range checks and sentinel values go wrong)"""
+    return rng.choice([0, n - 1, rng.randrange(n), rng.randrange(n)])
+
+
 def gen_desc(rng, KEY, ABS):
     """a valid description; every reference (default mapping etc.) resolves; no duplicate codes inside one table"""
     keynames = sorted(KEY)
@@ -92,8 +98,8 @@ def gen_desc(rng, KEY, ABS):
                 continue
             entries = []
             for spell, code in pick_keys(rng.choice([0, 1, 3, 8, 20]), KEY, keynames):
-                n = rng.randrange(128)
-                off = rng.randrange(16)
+                n = bnd(rng, 128)
+                off = bnd(rng, 16)
                 r = rng.random()
                 note = str(n) if r < 0.4 else note_name(n, rng)
                 if rng.random() < 0.05:
@@ -114,13 +120,13 @@ def gen_desc(rng, KEY, ABS):
                      "channel_offset": rng.choice([None, None, 0, 1, 15, rng.randrange(16)]),
                      "channel_offset_negative": rng.choice([None, None, 0, 2, 15])}
                 if typ == "cc":
-                    e["cc"] = rng.randrange(120)
+                    e["cc"] = bnd(rng, 120)
                     if rng.random() < 0.5:
-                        e["cc_negative"] = rng.randrange(120)
+                        e["cc_negative"] = bnd(rng, 120)
                 elif typ == "key":
-                    e["note"] = rng.randrange(128)
+                    e["note"] = bnd(rng, 128)
                     if rng.random() < 0.5:
-                        e["note_negative"] = rng.randrange(128)
+                        e["note_negative"] = bnd(rng, 128)
                 elif typ == "action":
                     e["action"] = rng.choice(ACTIONS)
                     if rng.random() < 0.6:
